@@ -9,3 +9,6 @@ pub mod orpat;
 pub mod guard;
 pub mod panic;
 pub mod folddrop;
+pub mod function;
+pub mod variable;
+pub mod iterloop;
